@@ -92,3 +92,36 @@ def from_call(pattern):
     def pred(e, fn):
         return cfg.callee_is(e, r)
     return pred
+
+
+def root_place(fn, op, depth=0):
+    """Follow an operand back through moves/copies, `&`/`&mut`/reborrows and
+    Deref/AsRef calls to the place it ultimately refers to: (local, proj) or None."""
+    from .cfg import TRANSPARENT
+    if depth > 12 or op[0] not in ("c", "m"):
+        return None
+    local, proj = op[1]
+    g = graph(fn)
+    ds = g.defs().get(local, [])
+    if len(ds) != 1 or not ds[0][4]:
+        return (local, [p for p in proj if p != "*"])
+    d = ds[0]
+    rest = [p for p in proj if p != "*"]
+    if d[0] == "stmt":
+        rv = d[3]
+        if rv[0] == "use" and rv[1][0] in ("c", "m"):
+            r = root_place(fn, rv[1], depth + 1)
+            return (r[0], r[1] + rest) if r else None
+        if rv[0] in ("ref", "raw"):
+            r = root_place(fn, ["c", rv[2]], depth + 1)
+            return (r[0], r[1] + rest) if r else None
+        if rv[0] == "cast":
+            r = root_place(fn, rv[2], depth + 1)
+            return (r[0], r[1] + rest) if r else None
+        return (local, rest)
+    if d[0] == "call":
+        t = d[2]
+        if t[1].get("dn") in TRANSPARENT and t[2]:
+            r = root_place(fn, t[2][0], depth + 1)
+            return (r[0], r[1] + rest) if r else None
+    return (local, rest)
